@@ -10,18 +10,21 @@ package harness
 // the stream is consumed, no cross-talk (token prefix).
 
 import (
+	"bytes"
 	"context"
 	"crypto/sha256"
 	"encoding/hex"
 	"encoding/json"
 	"fmt"
 	"io"
+	"net"
 	"net/http"
 	"net/http/httptest"
 	"path"
 	"regexp"
 	"strings"
 	"sync"
+	"sync/atomic"
 	"testing"
 	"time"
 
@@ -142,7 +145,89 @@ type c20Env struct {
 
 	wsClient   c20Client
 	httpClient c20Client
+	cutClient  c20Client // ws client whose uploads travel through cut
+	cut        *cutProxy
 	closers    []func()
+}
+
+// cutProxy is a plain TCP forwarder in front of the upload endpoint. Once armed with n > 0, the next connection
+// (new or kept alive) that carries client bytes is reset after n more of them; every other connection is piped
+// through untouched.
+type cutProxy struct {
+	ln     net.Listener
+	target string
+	armed  int64
+	cuts   int64
+	conns  int64
+}
+
+func newCutProxy(target string) (*cutProxy, error) {
+	ln, err := net.Listen("tcp", "127.0.0.1:0")
+	if err != nil {
+		return nil, err
+	}
+	p := &cutProxy{ln: ln, target: target}
+	go func() {
+		for {
+			c, err := ln.Accept()
+			if err != nil {
+				return
+			}
+			atomic.AddInt64(&p.conns, 1)
+			go p.serve(c)
+		}
+	}()
+	return p, nil
+}
+
+func (p *cutProxy) serve(c net.Conn) {
+	s, err := net.Dial("tcp", p.target)
+	if err != nil {
+		c.Close()
+		return
+	}
+	reset := func() {
+		for _, x := range []net.Conn{c, s} {
+			if tc, ok := x.(*net.TCPConn); ok {
+				tc.SetLinger(0)
+			}
+			x.Close()
+		}
+	}
+	go func() {
+		io.Copy(c, s)
+		c.Close()
+	}()
+	buf := make([]byte, 16*1024)
+	left := int64(-1)
+	for {
+		n, err := c.Read(buf)
+		if n > 0 {
+			if left < 0 {
+				if a := atomic.SwapInt64(&p.armed, 0); a > 0 {
+					left = a
+				}
+			}
+			if left >= 0 {
+				if int64(n) >= left {
+					s.Write(buf[:left])
+					atomic.AddInt64(&p.cuts, 1)
+					reset()
+					return
+				}
+				left -= int64(n)
+			}
+			if _, werr := s.Write(buf[:n]); werr != nil {
+				reset()
+				return
+			}
+		}
+		if err != nil {
+			s.Close()
+			c.Close()
+			return
+		}
+	}
 }
 
 type c20Client struct {
@@ -256,7 +341,16 @@ func newC20Env() (*c20Env, error) {
 	if err != nil {
 		return nil, err
 	}
-	e.closers = []func(){c1, c2}
+	e.cut, err = newCutProxy(addr)
+	if err != nil {
+		return nil, err
+	}
+	encCut := httpio.ReaderParamEncoder("http://" + e.cut.ln.Addr().String() + "/rpc/streams/v0/push")
+	c3, err := jsonrpc.NewMergeClient(context.Background(), "ws://"+addr+"/rpc/v0", "R", []interface{}{&e.cutClient}, nil, encCut)
+	if err != nil {
+		return nil, err
+	}
+	e.closers = []func(){c1, c2, c3, func() { e.cut.ln.Close() }}
 	return e, nil
 }
 
@@ -273,6 +367,47 @@ type c20Call struct {
 	Len  int      `json:"len"`
 	Seed uint64   `json:"seed"`
 	Plan ReadPlan `json:"plan"`
+	// the caller's reader: "" = fresh *strings.Reader; bytes = *bytes.Reader; section = *io.SectionReader; opaque = a
+	// reader exposing nothing but Read (length unknown to net/http). Skip bytes have already been consumed from it
+	// (by reading, or by seeking when SkipBySeek) before it is passed: the caller's byte sequence is what remains.
+	Reader     string `json:"reader,omitempty"`
+	Skip       int    `json:"skip,omitempty"`
+	SkipBySeek bool   `json:"skip_by_seek,omitempty"`
+}
+
+type onlyReader struct{ r io.Reader }
+
+func (o onlyReader) Read(p []byte) (int, error) { return o.r.Read(p) }
+
+// callerReader builds the reader described by the call and returns it with the bytes the handler must see.
+func (call c20Call) callerReader(payload []byte) (io.Reader, []byte) {
+	skip := call.Skip
+	if skip > len(payload) {
+		skip = len(payload)
+	}
+	if skip < 0 {
+		skip = 0
+	}
+	var rs io.ReadSeeker
+	switch call.Reader {
+	case "bytes":
+		rs = bytes.NewReader(payload)
+	case "section":
+		rs = io.NewSectionReader(bytes.NewReader(payload), 0, int64(len(payload)))
+	default:
+		rs = strings.NewReader(string(payload))
+	}
+	if skip > 0 {
+		if call.SkipBySeek {
+			rs.Seek(int64(skip), io.SeekStart)
+		} else {
+			io.CopyN(io.Discard, rs, int64(skip))
+		}
+	}
+	if call.Reader == "opaque" {
+		return onlyReader{rs}, payload[skip:]
+	}
+	return rs, payload[skip:]
 }
 
 type c20Case struct {
@@ -280,6 +415,9 @@ type c20Case struct {
 	Order     string    `json:"order"`     // natural | request_first | upload_first | aligned (both released at the same instant; http only)
 	Calls     []c20Call `json:"calls"`
 	SkewUs    int       `json:"skew_us,omitempty"` // aligned order: the upload side proceeds this many microseconds after the release
+	// UploadCut > 0 (ws transport, one call): the connection carrying the upload is reset after that many bytes
+	// (request head included); later connections to the upload endpoint work again.
+	UploadCut int `json:"upload_cut,omitempty"`
 }
 
 func c20Payload(tok string, n int, seed uint64) []byte {
@@ -315,6 +453,9 @@ func (e *c20Env) run(c c20Case) *Violation {
 	if c.Transport == "http" {
 		cl = e.httpClient
 	}
+	if c.UploadCut > 0 {
+		return e.runUploadCut(c)
+	}
 	type out struct {
 		res ReadResult
 		err error
@@ -329,7 +470,8 @@ func (e *c20Env) run(c c20Case) *Violation {
 			payload := c20Payload(tok, call.Len, call.Seed)
 			ctx, cancel := context.WithTimeout(context.Background(), 4*time.Second)
 			defer cancel()
-			r, err := cl.Consume(ctx, tok, call.Plan, strings.NewReader(string(payload)))
+			rd, _ := call.callerReader(payload)
+			r, err := cl.Consume(ctx, tok, call.Plan, rd)
 			outs[i] = out{r, err}
 		}(i, call)
 	}
@@ -337,7 +479,7 @@ func (e *c20Env) run(c c20Case) *Violation {
 	for i, call := range c.Calls {
 		o := outs[i]
 		tok := fmt.Sprintf("tok-%02d-%08x|", i, call.Seed&0xffffffff)
-		payload := c20Payload(tok, call.Len, call.Seed)
+		_, payload := call.callerReader(c20Payload(tok, call.Len, call.Seed))
 		if o.err != nil {
 			key := "call-failed"
 			if strings.Contains(o.err.Error(), "close of closed channel") {
@@ -413,6 +555,34 @@ func (e *c20Env) run(c c20Case) *Violation {
 	}
 }
 
+// runUploadCut: the side-channel upload loses its connection part-way. Nothing obliges the call to succeed then, but
+// a handler that is handed a stream ending in a clean end-of-file must have seen exactly the caller's bytes.
+func (e *c20Env) runUploadCut(c c20Case) *Violation {
+	call := c.Calls[0]
+	tok := fmt.Sprintf("tok-%02d-%08x|", 0, call.Seed&0xffffffff)
+	rd, want := call.callerReader(c20Payload(tok, call.Len, call.Seed))
+	cutsBefore := atomic.LoadInt64(&e.cut.cuts)
+	atomic.StoreInt64(&e.cut.armed, int64(c.UploadCut))
+	defer atomic.StoreInt64(&e.cut.armed, 0)
+	ctx, cancel := context.WithTimeout(context.Background(), 1500*time.Millisecond)
+	defer cancel()
+	res, err := e.cutClient.Consume(ctx, tok, ReadPlan{Pattern: "readall"}, rd)
+	if atomic.LoadInt64(&e.cut.cuts) == cutsBefore {
+		// the upload was shorter than the cut position: an ordinary call
+		if err != nil {
+			return violf("call-failed", "call with an uncut upload of %d bytes failed: %v", len(want), err)
+		}
+	}
+	if err != nil || res.ReadErr != "" {
+		return nil
+	}
+	sum := sha256.Sum256(want)
+	if res.Len != len(want) || res.SHA != hex.EncodeToString(sum[:]) {
+		return violf("bytes-differ", "the upload connection was reset after %d bytes; the handler was nevertheless handed a stream that ended in a clean EOF after %d bytes (prefix %q), the caller's reader held %d bytes", c.UploadCut, res.Len, res.Prefix, len(want))
+	}
+	return nil
+}
+
 var c20Lens = []int{0, 1, 2, 15, 16, 17, 511, 512, 513, 4095, 4096, 4097, 32767, 32768, 32769, 65536, 100000}
 
 func genC20Call(t *rapid.T, i int, maxLen int) c20Call {
@@ -449,7 +619,16 @@ func genC20Call(t *rapid.T, i int, maxLen int) c20Call {
 	case "closeearly":
 		p.CloseAt = rapid.IntRange(0, n).Draw(t, l+"closeat")
 	}
-	return c20Call{Len: n, Seed: rapid.Uint64().Draw(t, l+"seed"), Plan: p}
+	call := c20Call{Len: n, Seed: rapid.Uint64().Draw(t, l+"seed"), Plan: p}
+	call.Reader = rapid.SampledFrom([]string{"", "", "bytes", "section", "opaque"}).Draw(t, l+"reader")
+	if n > 0 && rapid.IntRange(0, 3).Draw(t, l+"preconsumed") == 0 {
+		call.Skip = rapid.IntRange(1, n).Draw(t, l+"skip")
+		call.SkipBySeek = rapid.Bool().Draw(t, l+"seek")
+		if p.Pattern == "closeearly" && p.CloseAt > n-call.Skip {
+			call.Plan.CloseAt = n - call.Skip
+		}
+	}
+	return call
 }
 
 func c20NT(c c20Case) (bool, []string) {
@@ -474,16 +653,27 @@ func c20NT(c c20Case) (bool, []string) {
 		if call.Plan.PostEOFs > 0 {
 			cl = append(cl, "reads_past_eof")
 		}
+		if call.Reader != "" {
+			cl = append(cl, "reader_"+call.Reader)
+		}
+		if call.Skip > 0 {
+			cl = append(cl, "pre_consumed")
+			nt = true
+		}
+	}
+	if c.UploadCut > 0 {
+		cl = append(cl, "upload_cut")
+		nt = true
 	}
 	return nt, cl
 }
 
-const c20Rule = "payload length from edge lengths {0,1,2,15..17,511..513,4095..4097,32767..32769,65536,100000} or uniform up to the tier's maximum (256 KiB quick, 4 MiB thorough), seeded pseudo-random content prefixed by the call's token; read pattern {ReadAll, byte-at-a-time, chunked, read past EOF 1-3 times, Close after EOF, Close early}; arrival order {natural, request first (upload delayed 25 ms), upload first (RPC request delayed 25 ms, http transport)}; 1-6 concurrent calls; RPC over ws or http. Non-trivial = more than one concurrent call, a forced order, length 0 or > 32 KiB, or any pattern other than ReadAll; distinct by descriptor hash"
+const c20Rule = "payload length from edge lengths {0,1,2,15..17,511..513,4095..4097,32767..32769,65536,100000} or uniform up to the tier's maximum (256 KiB quick, 4 MiB thorough), seeded pseudo-random content prefixed by the call's token; read pattern {ReadAll, byte-at-a-time, chunked, read past EOF 1-3 times, Close after EOF, Close early}; arrival order {natural, request first (upload delayed 25 ms), upload first (RPC request delayed 25 ms, http transport)}; 1-6 concurrent calls; RPC over ws or http; the caller's reader is a strings/bytes/section reader or one exposing only Read, fresh or with 1..n bytes already consumed by reading or seeking (the handler must then see what remains); a few ws cases reset the connection carrying the upload after 100 B - 500 kB (the call may fail then, but a stream that ends in a clean EOF must be byte-exact). Non-trivial = more than one concurrent call, a forced order, length 0 or > 32 KiB, or any pattern other than ReadAll; distinct by descriptor hash"
 
 func TestC20(t *testing.T) {
 	rec := NewRec("C20", c20Rule)
 	defer rec.Finish(t)
-	rec.RequireClass("order_aligned", "len_0", "len_gt_32k", "reads_past_eof", "pattern_closeafter", "pattern_closeearly", "pattern_bytewise", "order_request_first", "order_upload_first", "ncalls_3", "tr_ws", "tr_http")
+	rec.RequireClass("upload_cut", "pre_consumed", "reader_bytes", "reader_section", "reader_opaque", "order_aligned", "len_0", "len_gt_32k", "reads_past_eof", "pattern_closeafter", "pattern_closeearly", "pattern_bytewise", "order_request_first", "order_upload_first", "ncalls_3", "tr_ws", "tr_http")
 	env, err := newC20Env()
 	if err != nil {
 		t.Fatalf("env: %v", err)
@@ -519,6 +709,30 @@ func TestC20(t *testing.T) {
 						rec.Run(t, c, nt, cl, func() *Violation { return env.runConfirm(c) })
 					}
 				}
+			}
+		}
+		// the caller's reader: every kind, fresh and partly consumed (by reading or by seeking)
+		for _, tr := range []string{"ws", "http"} {
+			for _, kind := range []string{"", "bytes", "section", "opaque"} {
+				for _, sk := range []struct {
+					n, skip int
+					seek    bool
+				}{{5000, 0, false}, {5000, 1, false}, {5000, 4999, true}, {100000, 70000, false}, {100000, 30000, true}, {17, 17, false}} {
+					c := c20Case{Transport: tr, Order: "natural", Calls: []c20Call{{Len: sk.n, Seed: uint64(sk.n + sk.skip), Plan: ReadPlan{Pattern: "readall"}, Reader: kind, Skip: sk.skip, SkipBySeek: sk.seek}}}
+					nt, cl := c20NT(c)
+					rec.Run(t, c, nt, cl, func() *Violation { return env.runConfirm(c) })
+				}
+			}
+		}
+		// the upload's connection is reset part-way
+		for _, uc := range []struct{ n, cut int }{{1 << 20, 64 << 10}, {300000, 20000}, {1 << 20, 500000}, {2000, 100}} {
+			for _, kind := range []string{"", "opaque"} {
+				if !thorough() && kind == "opaque" && uc.n != 1<<20 {
+					continue
+				}
+				c := c20Case{Transport: "ws", Order: "natural", UploadCut: uc.cut, Calls: []c20Call{{Len: uc.n, Seed: uint64(uc.n + uc.cut), Plan: ReadPlan{Pattern: "readall"}, Reader: kind}}}
+				nt, cl := c20NT(c)
+				rec.Run(t, c, nt, cl, func() *Violation { return env.runConfirm(c) })
 			}
 		}
 		// aligned arrivals: upload and request of the same stream id hit the rendezvous table at the same instant
